@@ -1,4 +1,257 @@
-import PysamlModel.Model.Xsw
+/-
+  C02 — Reported identity always comes from signature-covered content.
+
+  What is proved (about the model of Model/Xsw.lean, i.e. relative to the stand-in's reading of
+  xmlsec1 and to ideal digests/signatures): if `_check_signature` accepts an element and that
+  element's own, single ds:Signature child is the first ds:Signature in document order below it
+  (`OwnSigFirst` — what a schema-ordered document satisfies), then the SignatureValue is the
+  key-holder's signature over exactly that Signature's SignedInfo, whose single Reference names the
+  element's own ID and whose DigestValue is the digest of exactly the element's content minus that
+  signature.  Everything pysaml2 reports is harvested from that element, so it is covered.
+
+  The full statement without `OwnSigFirst` is FALSE of the model and of the implementation
+  (signature wrapping, known finding C02/xsw-first-signature-not-own): `C02_counterexample`.
+-/
+import PysamlModel.Proofs.Xsw
 import PysamlModel.Spec.C02
+
 namespace C02
+open Xsw
+
+/-- The Algorithm attribute of a ds:Transform. -/
+def algOf (t : XNode) : String := (t.attr "Algorithm").getD ""
+
+/-- The element's own signature is what both xmlsec1 and the object model look at. -/
+structure OwnSigFirst (item sig si : XNode) (j k : Nat) : Prop where
+  /-- the first ds:Signature in document order below the element is its child number `j` … -/
+  first : (preorder item []).find? (fun p => (nodeAt item p).map (·.tag) == some dsSignature) = some [j]
+  sigAt : item.kids[j]? = some sig
+  /-- … which is also the one the object model keeps (the last ds:Signature child) -/
+  lastSig : lastChild item dsSignature = some (j, sig)
+  /-- its first and last ds:SignedInfo children coincide -/
+  firstSI : firstChild sig dsSignedInfo = some (k, si)
+  lastSI : lastChild sig dsSignedInfo = some (k, si)
+  /-- xmlsec1 (all descendant Transforms) and the object model (children of the last Transforms)
+      see the same transform list -/
+  transformsView : ∀ ref ∈ childrenWith si dsReference,
+    (descendantsWith ref dsTransform).map (fun (t : XNode) => (t.attr "Algorithm").getD "") =
+      (match lastChild ref dsTransforms with
+       | some (_, ts) => (childrenWith ts dsTransform).map (fun (t : XNode) => (t.attr "Algorithm").getD "")
+       | none => [])
+
+theorem lookup_find (ids : List (String × Path)) (id : String) (p : Path) (h : ids.lookup id = some p) :
+    (ids.find? (fun e => ("#" ++ id) == "#" ++ e.1)).map (·.2) = some p := by
+  induction ids with
+  | nil => simp [List.lookup] at h
+  | cons e rest ih =>
+    obtain ⟨i, q⟩ := e
+    simp only [List.lookup] at h
+    simp only [List.find?]
+    by_cases hi : id = i
+    · subst hi
+      simp only [beq_self_eq_true] at h
+      simp [h]
+    · have hne : (id == i) = false := by simpa using hi
+      rw [hne] at h
+      have hne2 : (("#" ++ id) == "#" ++ i) = false := by
+        apply beq_eq_false_iff_ne.mpr
+        intro hh; exact hi (hash_cancel _ _ hh)
+      simp only [hne2]
+      exact ih h
+
+/-- C02 (partial, under `OwnSigFirst`): what an accepted signature check establishes. -/
+theorem C02_covered_partial (doc item sig si : XNode) (itemPath : Path) (nodeName : String) (key : Nat)
+    (schemaOk : Bool) (j k : Nat)
+    (hitem : nodeAt doc itemPath = some item)
+    (hres : ∀ ids id, registerIds doc nodeName = some ids → item.attr "ID" = some id → ids.lookup id = some itemPath)
+    (hown : OwnSigFirst item sig si j k)
+    (hchk : checkSignature doc itemPath nodeName key schemaOk = true) :
+    ∃ id ref dv sv,
+      item.attr "ID" = some id ∧ childrenWith si dsReference = [ref] ∧ ref.attr "URI" = some ("#" ++ id) ∧
+      firstChild ref dsDigestValue = some dv ∧ valueKids dv.2 = [XNode.digest (removeAt item [j])] ∧
+      firstChild sig dsSignatureValue = some sv ∧ valueKids sv.2 = [XNode.sigval key si] := by
+  unfold checkSignature at hchk
+  rw [hitem] at hchk
+  simp only [Bool.and_eq_true] at hchk
+  obtain ⟨⟨_, hval⟩, hid⟩ := hchk
+  cases hidv : item.attr "ID" with
+  | none => simp [hidv] at hid
+  | some id =>
+    rw [hidv] at hid
+    simp only at hid
+    -- validators, on the object-model view
+    unfold validatorsOk at hval
+    rw [hown.lastSig] at hval
+    simp only at hval
+    rw [hown.lastSI] at hval
+    simp only at hval
+    cases hrefs : childrenWith si dsReference with
+    | nil => simp [hrefs] at hval
+    | cons ref more =>
+      cases more with
+      | cons r2 r3 => simp [hrefs] at hval
+      | nil =>
+        rw [hrefs] at hval
+        simp only [Bool.and_eq_true] at hval
+        obtain ⟨⟨⟨⟨⟨⟨hidOk, _⟩, _⟩, _⟩, _⟩, henv⟩, _⟩ := hval
+        rw [hidv] at hidOk
+        cases huri : ref.attr "URI" with
+        | none => simp [huri] at hidOk
+        | some u =>
+          rw [huri] at hidOk
+          simp only [Bool.and_eq_true, beq_iff_eq] at hidOk
+          have hu : u = "#" ++ id := hidOk.1
+          subst hu
+          -- xmlsec's verification
+          unfold xmlsecVerify at hid
+          cases hreg : registerIds doc nodeName with
+          | none => simp [hreg] at hid
+          | some ids =>
+            rw [hreg] at hid
+            simp only at hid
+            have hlk := hres ids id hreg hidv
+            rw [hlk] at hid
+            simp only at hid
+            rw [hitem] at hid
+            simp only at hid
+            rw [hown.first] at hid
+            simp only at hid
+            have hsig : nodeAt doc (itemPath ++ [j]) = some sig := by
+              rw [nodeAt_append, hitem]
+              simp [nodeAt, hown.sigAt]
+            rw [hsig] at hid
+            simp only at hid
+            rw [hown.firstSI] at hid
+            simp only at hid
+            rw [hrefs] at hid
+            simp only [List.isEmpty_cons, Bool.not_false, Bool.true_and, List.all_cons, List.all_nil, Bool.and_true,
+              Bool.and_eq_true] at hid
+            obtain ⟨href, hsv⟩ := hid
+            rw [huri] at href
+            simp only [Option.getD_some] at href
+            have hne : (("#" ++ id) == "") = false := by
+              apply beq_eq_false_iff_ne.mpr
+              intro hh
+              have := congrArg String.length hh
+              simp [String.length_append] at this
+            rw [hne] at href
+            simp only [Bool.false_eq_true, if_false] at href
+            rw [lookup_find ids id itemPath hlk] at href
+            simp only [Bool.and_eq_true] at href
+            obtain ⟨_, hdig⟩ := href
+            rw [hitem] at hdig
+            simp only at hdig
+            -- the enveloped transform is applied: both views of the transform list agree
+            have hview := hown.transformsView ref (by rw [hrefs]; simp)
+            have henv' : ((descendantsWith ref dsTransform).map (fun (t : XNode) => (t.attr "Algorithm").getD "")).contains algEnveloped = true := by
+              rw [hview]; exact henv
+            rw [henv'] at hdig
+            have hpre : isPrefixPath itemPath (itemPath ++ [j]) = true := by
+              unfold isPrefixPath
+              exact List.isPrefixOf_iff_prefix.mpr (List.prefix_append _ _)
+            rw [hpre] at hdig
+            simp only [if_true, List.drop_left', and_self] at hdig
+            cases hdv : firstChild ref dsDigestValue with
+            | none => simp [hdv] at hdig
+            | some dv =>
+              rw [hdv] at hdig
+              simp only at hdig
+              cases hsvv : firstChild sig dsSignatureValue with
+              | none => simp [hsvv] at hsv
+              | some sv =>
+                rw [hsvv] at hsv
+                simp only at hsv
+                exact ⟨id, ref, dv, sv, rfl, rfl, huri, hdv, list_beq_sound _ _ hdig, rfl, list_beq_sound _ _ hsv⟩
+
+/-- The same conclusion through the decidable predicate the counterexample below refutes. -/
+theorem C02_covered_partial_b (doc item sig si : XNode) (itemPath : Path) (nodeName : String) (key : Nat)
+    (schemaOk : Bool) (j k : Nat)
+    (hitem : nodeAt doc itemPath = some item)
+    (hres : ∀ ids id, registerIds doc nodeName = some ids → item.attr "ID" = some id → ids.lookup id = some itemPath)
+    (hown : OwnSigFirst item sig si j k)
+    (hchk : checkSignature doc itemPath nodeName key schemaOk = true) :
+    coveredB item key = true := by
+  obtain ⟨id, ref, dv, sv, hid, hrefs, huri, hdv, hdig, hsv, hsig⟩ :=
+    C02_covered_partial doc item sig si itemPath nodeName key schemaOk j k hitem hres hown hchk
+  unfold coveredB
+  apply List.any_eq_true.mpr
+  refine ⟨(sig, j), List.mem_zipIdx_iff_getElem?.mpr hown.sigAt, ?_⟩
+  have htag : (sig.tag == dsSignature) = true := by
+    have := hown.lastSig
+    unfold lastChild at this
+    simp only [Option.map_eq_some_iff] at this
+    obtain ⟨q, hq, hqe⟩ := this
+    have hp := List.find?_some hq
+    cases hqe
+    exact hp
+  simp only [htag, Bool.true_and, hown.firstSI, hid, Bool.and_eq_true]
+  refine ⟨?_, ?_⟩
+  · apply List.any_eq_true.mpr
+    refine ⟨ref, by rw [hrefs]; simp, ?_⟩
+    simp only [huri, beq_self_eq_true, Bool.true_and, hdv]
+    rw [hdig]; exact list_beq_refl _
+  · simp only [hsv]
+    rw [hsig]; exact list_beq_refl _
+
+/-- The full statement: acceptance alone implies coverage. -/
+def C02_full : Prop :=
+  ∀ (doc item : XNode) (itemPath : Path) (nodeName : String) (key : Nat),
+    nodeAt doc itemPath = some item → checkSignature doc itemPath nodeName key true = true → coveredB item key = true
+
+/-! ### concrete documents: a genuinely signed Response (non-vacuity) and the wrapping attack -/
+
+private def tResponse := "{urn:oasis:names:tc:SAML:2.0:protocol}Response"
+private def el (t : String) (a : List (String × String)) (k : List XNode) : XNode := .elem t a k
+private def statusOk : XNode := el "Status" [] [el "StatusCode" [("Value", "Success")] []]
+private def assertion (who : String) : XNode := el "Assertion" [("ID", "a1")] [el "NameID" [] [.text who]]
+
+private def signedInfo (uri : String) (content : XNode) : XNode :=
+  el dsSignedInfo [] [
+    el dsC14nMethod [("Algorithm", algExcC14n)] [],
+    el dsReference [("URI", uri)] [
+      el dsTransforms [] [el dsTransform [("Algorithm", algEnveloped)] [], el dsTransform [("Algorithm", algExcC14n)] []],
+      el dsDigestValue [] [.digest content]]]
+
+private def signature (uri : String) (content : XNode) (key : Nat) : XNode :=
+  el dsSignature [] [signedInfo uri content, el dsSignatureValue [] [.sigval key (signedInfo uri content)]]
+
+/-- what the identity provider signed: the Response without its signature -/
+private def origContent : XNode := el tResponse [("ID", "orig")] [statusOk, assertion "alice"]
+/-- the genuinely signed Response -/
+private def genuineDoc : XNode :=
+  el tResponse [("ID", "orig")] [signature "#orig" origContent 1, statusOk, assertion "alice"]
+
+example : checkSignature genuineDoc [] tResponse 1 true = true := by decide
+example : coveredB genuineDoc 1 = true := by decide
+example : checkSignature genuineDoc [] tResponse 2 true = false := by decide       -- another key
+/-- the hypotheses of `C02_covered_partial` are satisfiable -/
+example : OwnSigFirst genuineDoc (signature "#orig" origContent 1) (signedInfo "#orig" origContent) 0 0 :=
+  { first := by decide, sigAt := rfl, lastSig := rfl, firstSI := rfl, lastSI := rfl,
+    transformsView := by
+      intro ref href
+      have : ref = el dsReference [("URI", "#orig")] [
+          el dsTransforms [] [el dsTransform [("Algorithm", algEnveloped)] [], el dsTransform [("Algorithm", algExcC14n)] []],
+          el dsDigestValue [] [.digest origContent]] := by
+        simp [childrenWith, signedInfo, el, XNode.kids, XNode.tag, dsReference, dsC14nMethod] at href
+        exact href
+      subst this
+      decide }
+
+/-- the wrapping attack (known finding C02/xsw-first-signature-not-own): the genuine signature is kept
+    FIRST, a second Signature naming the new ID comes LAST, the signed original hides in StatusDetail -/
+private def evilDoc : XNode :=
+  el tResponse [("ID", "evil")] [
+    signature "#orig" origContent 1,
+    el dsSignature [] [signedInfo "#evil" (.junk "x"), el dsSignatureValue [] [.junk "y"]],
+    el "Status" [] [el "StatusCode" [("Value", "Success")] [], el "StatusDetail" [] [origContent]],
+    assertion "mallory"]
+
+theorem C02_counterexample : ¬ C02_full := by
+  intro h
+  have hacc : checkSignature evilDoc [] tResponse 1 true = true := by decide
+  have := h evilDoc evilDoc [] tResponse 1 rfl hacc
+  have hcov : coveredB evilDoc 1 = false := by decide
+  rw [hcov] at this
+  cases this
+
 end C02
